@@ -10,6 +10,9 @@
   `E` (net.ParseIP, hex.DecodeString): "whenever the builder returns a PDU, then …".
 -/
 import Stgutg.Proofs.Builders
+import Stgutg.Proofs.BuildersRoles
+import Stgutg.Proofs.BuildersRefuseTm
+import Stgutg.Model.NetExt
 
 namespace Stgutg.Props.C13
 open Stgutg Stgutg.Aper Stgutg.Builders Stgutg.Spec.NgapView Stgutg.Spec.Ts38413 Stgutg.Model.Convert
@@ -314,5 +317,226 @@ theorem C13_plmn (E : Ext) (t : Template) (ht : t ∈ allTable) (plmn : Bytes) (
       rw [eval_at E _ _ site.1 tm s' hq]
       rw [isPlmnT_eval E _ _ s' hat]
       rfl
+
+
+/-! ## the builders encode for all in-range arguments, and refuse out-of-range identifiers
+
+  Helper lemmas: Proofs/BuildersOk*.lean (one value predicate `okV` ⇒ C03's `regular`, C04's `conf`, and "the X.691
+  specification encodes it"), Proofs/BuildersTm*.lean (static analysis `tmOK` of a skeleton against the schema, the
+  obligations `obls` it leaves to the arguments, soundness), Proofs/BuildersRange.lean (`InRange`), Proofs/BuildersRoles.lean
+  (the obligations role by role: `ArgsInRange`), Proofs/BuildersRefuse*.lean (`badV` ⇒ the encoder model returns an error). -/
+
+open Stgutg.Proofs.BuildersOk Stgutg.Proofs.BuildersTm Stgutg.Proofs.BuildersRange Stgutg.Proofs.BuildersRoles
+open Stgutg.Proofs.BuildersRefuse
+
+/- FINDING F37 (found by this analysis, confirmed on the real code, FIXED in /repo f4784a9): `BuildPDUSessionResourceReleaseCommand`
+   called with a paging priority tagged the RAN Paging Priority value with IE id 52 (PagingPriority) instead of 83
+   (RANPagingPriority); the open type did not match its identifier and `ngap.Encoder` refused the builder's own PDU for all
+   arguments. Before the repair these rows were an explicit exception of `skeleton_table` / `C13_encodes`; the table now passes
+   without exception (replay: harness/corpus/builders/f37-release-command-paging-priority-id.ops). -/
+
+/-- the constants of `BuildHandoverNotify` / `BuildLocationReport` contain a 28-bit E-UTRA cell identity whose last octet has
+    bits set beyond the 28th (`0xff`, `0x13`): the encoder masks them, so the PDU is encoded but the decoder returns the
+    masked octets, not the builder's value. Excluded from `C13_decodes_back` only. -/
+def NonCanonicalConst (t : Template) : Bool :=
+  t.message == .HandoverNotify || t.message == .LocationReport
+
+set_option maxRecDepth 1000000 in
+/-- table fact (kernel evaluation over the hand-written and the regenerated probed templates, against the regenerated
+    schema): every skeleton of every builder passes the static analysis — for encoding, and (two builders excepted) for the
+    round trip —, and every obligation it leaves to the arguments is either one of the explicit role kinds at a position with
+    exactly the promised constraints, or concerns a caller-supplied value without a fixed range -/
+theorem skeleton_table :
+    (allTable.all fun t => t.cases.all fun c =>
+      match c.out with
+      | .val tm =>
+        (skOK false tm && (skOK true tm || NonCanonicalConst t)) &&
+        (skObls tm).all (fun o => explicitOK t o || genericOK t o)
+      | _ => true) = true := by decide +kernel
+
+theorem skeleton_facts (t : Template) (ht : t ∈ allTable) (c : Case) (hc : c ∈ t.cases) (tm : Tm) (hout : c.out = .val tm) :
+    (skOK false tm = true ∧ (skOK true tm = true ∨ NonCanonicalConst t = true)) ∧
+    ∀ o ∈ skObls tm, explicitOK t o = true ∨ genericOK t o = true := by
+  have h := List.all_eq_true.mp (List.all_eq_true.mp skeleton_table t ht) c hc
+  rw [hout] at h
+  simp only [Bool.and_eq_true, Bool.or_eq_true, List.all_eq_true] at h
+  exact h
+
+/-- **C13_encodes**: for every builder of the table and all arguments in range (`InRange false`: they select a row of the
+    decision table that returns a PDU and fill every hole of its skeleton with a value of the type and within the
+    constraints of its position — `C13_in_range` states this role by role), the builder returns a PDU, `ngap.Encoder`
+    (model) returns octets for it, and these octets are the complete X.691 ALIGNED PER encoding of the PDU (C03). -/
+theorem C13_encodes (E : Ext) (t : Template) (ht : t ∈ allTable) (plmn : Bytes) (args : List Val)
+    (h : InRange false E t plmn args) :
+    ∃ pdu bs, build E t plmn args = .ok pdu ∧ encodePdu pdu = .ok bs ∧
+      Spec.X691.encodePdu Gen.Ngap.schema Builders.fuel (.struct Gen.Ngap.pduId) Gen.Ngap.encoderParams pdu = some bs := by
+  obtain ⟨c, tm, hsel, hout, hob⟩ := h
+  have hsk : skOK false tm = true := (skeleton_facts t ht c (selected_mem E t plmn args c hsel) tm hout).1.1
+  obtain ⟨hb, hv⟩ := selected_builds false E t plmn args c tm hsel hout hsk hob
+  obtain ⟨bs, h1, h2⟩ := okV_pdu_encodes false _ hv
+  exact ⟨_, bs, hb, h1, h2⟩
+
+set_option maxRecDepth 1000000 in
+/-- the hypothesis `InRange` is satisfiable (the general case, role by role: `C13_in_range`; for the messages of the
+    registration path with explicit ranges: Proofs/BuildersPath.lean): UPLINK NAS TRANSPORT with the largest identifiers -/
+example : InRange true Model.NetExt.goExt tUplinkNasTransport [0x02, 0xf8, 0x39]
+    [.int (2 ^ 40 - 1), .int (2 ^ 32 - 1), .octs [0x7e, 0x00, 0x41]] := by
+  refine ⟨⟨[], .val _⟩, _, rfl, rfl, ?_⟩
+  have h : ((skObls (initiating 46 Builders.ignore 48 [
+      amfIE Builders.reject 4 1 0, ranIE Builders.reject 4 2 1,
+      ieT idNAS Builders.reject 4 3 (.struct [.hole (.argOcts 2)]),
+      ieT idULI Builders.ignore 4 4 (userLocationNR [0, 0, 0, 0, 0x10] [0, 0, 1])])).all fun o =>
+        Obl.ok Gen.Ngap.schema true Model.NetExt.goExt (effEnv tUplinkNasTransport [0x02, 0xf8, 0x39]
+          [.int (2 ^ 40 - 1), .int (2 ^ 32 - 1), .octs [0x7e, 0x00, 0x41]]) .nil o) = true := by decide +kernel
+  exact fun o ho => List.all_eq_true.mp h o ho
+
+set_option maxRecDepth 1000000 in
+/-- … also with a caller-supplied ngapType value and a non-empty PDU session id list: UE CONTEXT RELEASE COMPLETE for
+    sessions 1 and 255 -/
+example : InRange true Model.NetExt.goExt tUEContextReleaseComplete [0x02, 0xf8, 0x39]
+    [.int 1, .int 2, .slice [.int 1, .int 255]] := by
+  refine ⟨⟨[2], .val (successful 41 Builders.reject 16 (ueCtxRelCompleteIEs true))⟩, _, rfl, rfl, ?_⟩
+  have h : ((skObls (successful 41 Builders.reject 16 (ueCtxRelCompleteIEs true))).all fun o =>
+        Obl.ok Gen.Ngap.schema true Model.NetExt.goExt (effEnv tUEContextReleaseComplete [0x02, 0xf8, 0x39]
+          [.int 1, .int 2, .slice [.int 1, .int 255]]) .nil o) = true := by decide +kernel
+  exact fun o ho => List.all_eq_true.mp h o ho
+
+/-- **C13_decodes_back**: with bit strings in canonical form (`InRange true`: unused bits of a gNB id's last octet clear)
+    the library decoder (model) returns, from the octets `ngap.Encoder` produced, exactly the PDU the builder made (C04) —
+    so every "carries" theorem above is a statement about what the receiver decodes. -/
+theorem C13_decodes_back (E : Ext) (t : Template) (ht : t ∈ allTable) (plmn : Bytes) (args : List Val)
+    (h : InRange true E t plmn args) (hnc : NonCanonicalConst t = false) :
+    ∃ pdu bs, build E t plmn args = .ok pdu ∧ encodePdu pdu = .ok bs ∧
+      unmarshal Gen.Ngap.schema Builders.fuel (.struct Gen.Ngap.pduId) Gen.Ngap.decoderParams bs = .ok pdu := by
+  obtain ⟨c, tm, hsel, hout, hob⟩ := h
+  have hsk : skOK true tm = true := by
+    rcases (skeleton_facts t ht c (selected_mem E t plmn args c hsel) tm hout).1.2 with h2 | h2
+    · exact h2
+    · rw [hnc] at h2; cases h2
+  obtain ⟨hb, hv⟩ := selected_builds true E t plmn args c tm hsel hout hsk hob
+  obtain ⟨bs, h1, _⟩ := okV_pdu_encodes true _ hv
+  exact ⟨_, bs, hb, h1, okV_pdu_decodes _ bs hv h1⟩
+
+/-- **C13_in_range**: `InRange`, role by role. The arguments select the row `c` with skeleton `tm`; the identifiers, PLMN,
+    address, name, gNB id and session id list are in the explicit ranges of `ArgsInRange`; every caller-supplied ngapType
+    value / string / integer of a role without a fixed range (AMF-side builders; the 5G-S-TMSI text) conforms to the type at
+    the position the builder puts it (`genericOK` obligations). -/
+theorem C13_in_range (canon : Bool) (E : Ext) (t : Template) (ht : t ∈ allTable) (plmn : Bytes) (args : List Val)
+    (c : Case) (tm : Tm) (hsel : selected E t plmn args = some c) (hout : c.out = .val tm)
+    (hr : ArgsInRange canon E t (effEnv t plmn args) tm)
+    (hgen : ∀ o ∈ skObls tm, genericOK t o = true → Obl.ok Gen.Ngap.schema canon E (effEnv t plmn args) .nil o = true) :
+    InRange canon E t plmn args := by
+  refine ⟨c, tm, hsel, hout, fun o ho => ?_⟩
+  rcases (skeleton_facts t ht c (selected_mem E t plmn args c hsel) tm hout).2 o ho with h1 | h1
+  · exact explicit_sound canon E t _ tm hr o ho h1
+  · exact hgen o ho h1
+
+/-- the ASN.1 range of an identifier role: AMF-UE-NGAP-ID 0..2^40−1, RAN-UE-NGAP-ID 0..2^32−1, PDU session ID 0..255 -/
+def idUpper : Role → Option Int
+  | .amf => some (2 ^ 40 - 1)
+  | .ran => some (2 ^ 32 - 1)
+  | .psi => some 255
+  | _ => none
+
+/-- the skeleton's encoder path reaches the hole `h` at an INTEGER constrained to exactly `0..ub` -/
+def skReach (h : Hole) (ub : Int) (tm : Tm) : Bool :=
+  tmReach Gen.Ngap.schema h 0 ub skDepth Builders.fuel (.struct Gen.Ngap.pduId) Gen.Ngap.encoderParams tm
+
+def reachOK (r : Role) (t : Template) : Bool :=
+  match roleIdx t r, idUpper r with
+  | some i, some ub => (skeletons t).all (skReach (.arg i) ub)
+  | _, _ => true
+
+set_option maxRecDepth 1000000 in
+/-- table fact: in every skeleton of every builder that takes an AMF-UE-NGAP-ID / RAN-UE-NGAP-ID / PDU session id, the
+    encoder reaches the argument at an INTEGER position constrained to exactly the identifier's range, no extension marker -/
+theorem reach_table : (allTable.all fun t => reachOK .amf t && reachOK .ran t && reachOK .psi t) = true := by decide +kernel
+
+/-- the hypotheses of `C13_refuses` are satisfiable: UPLINK NAS TRANSPORT with AMF-UE-NGAP-ID 2^40 -/
+example (E : Ext) : Shaped E tUplinkNasTransport [0x02, 0xf8, 0x39] [.int (2 ^ 40), .int 7, .octs []]
+    (eval E (effEnv tUplinkNasTransport [0x02, 0xf8, 0x39] [.int (2 ^ 40), .int 7, .octs []]) .nil
+      (initiating 46 Builders.ignore 48 [amfIE Builders.reject 4 1 0, ranIE Builders.reject 4 2 1,
+        ieT idNAS Builders.reject 4 3 (.struct [.hole (.argOcts 2)]),
+        ieT idULI Builders.ignore 4 4 (userLocationNR [0, 0, 0, 0, 0x10] [0, 0, 1])])) ∧
+    roleIdx tUplinkNasTransport .amf = some 0 ∧ idUpper .amf = some (2 ^ 40 - 1) ∧ (2 ^ 40 - 1 : Int) < 2 ^ 40 :=
+  ⟨⟨_, by simp [skeletons, tUplinkNasTransport], rfl⟩, by decide, rfl, by decide⟩
+
+/-- **C13_refuses**: an identifier outside its ASN.1 range is refused with an error, never truncated: for every builder
+    that takes an AMF-UE-NGAP-ID (`r = .amf`), RAN-UE-NGAP-ID (`.ran`) or PDU session id (`.psi`), whatever the other
+    arguments are, if that argument is negative or above 2^40−1 / 2^32−1 / 255, then `ngap.Encoder` (model) does not
+    return octets for the PDU the builder (or the wrapper) made. -/
+theorem C13_refuses (E : Ext) (t : Template) (ht : t ∈ allTable) (r : Role) (ub : Int) (hub : idUpper r = some ub)
+    (hr : r = .amf ∨ r = .ran ∨ r = .psi) (i : Nat) (hi : roleIdx t r = some i)
+    (plmn : Bytes) (args : List Val) (pdu : Val) (h : Shaped E t plmn args pdu)
+    (n : Int) (ha : args[i]? = some (.int n)) (hout : n < 0 ∨ ub < n) :
+    ∀ bs, encodePdu pdu ≠ .ok bs := by
+  obtain ⟨tm, htm, hp⟩ := h
+  have hT := List.all_eq_true.mp reach_table t ht
+  simp only [Bool.and_eq_true] at hT
+  have hR : reachOK r t = true := by
+    rcases hr with rfl | rfl | rfl
+    · exact hT.1.1
+    · exact hT.1.2
+    · exact hT.2
+  unfold reachOK at hR
+  rw [hi, hub] at hR
+  have hS := List.all_eq_true.mp hR tm htm
+  have hev : evalHole E (effEnv t plmn args) .nil (.arg i) = .int n := by
+    simp [evalHole, effEnv_arg t plmn args i _ ha]
+  have hbad := tmReach_sound E (effEnv t plmn args) Gen.Ngap.schema (.arg i) 0 ub n hout skDepth Builders.fuel _ _ tm .nil hev hS
+  subst hp
+  intro bs hbs
+  unfold encodePdu marshal at hbs
+  cases henc : encField Gen.Ngap.schema Builders.fuel 0 (.struct Gen.Ngap.pduId) Gen.Ngap.encoderParams
+      (eval E (effEnv t plmn args) .nil tm) with
+  | error x => rw [henc] at hbs; cases hbs
+  | ok bits => exact badV_refused Gen.Ngap.schema _ _ _ _ hbad 0 bits henc
+
+/-- in every row of the decision table that ranges over the PDU session id list argument (every row but the one for a nil
+    list), the encoder reaches the loop variable at an INTEGER constrained to exactly 0..255 -/
+def reachListOK (t : Template) : Bool :=
+  match roleIdx t .psilist with
+  | some i =>
+    t.dims == [i] && roleAt t i == .psilist && t.cases.all fun c =>
+      match c.out with
+      | .val tm => c.cls == [0] ||
+          tmReachList Gen.Ngap.schema i 0 255 skDepth Builders.fuel (.struct Gen.Ngap.pduId) Gen.Ngap.encoderParams tm
+      | _ => true
+  | none => true
+
+set_option maxRecDepth 1000000 in
+theorem reach_list_table : allTable.all reachListOK = true := by decide +kernel
+
+/-- **C13_refuses (PDU session id list)**: UE CONTEXT RELEASE COMPLETE / REQUEST built from a list that contains a PDU
+    session id outside 0..255 is never encoded, whatever the other arguments and the other elements are. -/
+theorem C13_refuses_list (E : Ext) (t : Template) (ht : t ∈ allTable) (i : Nat) (hi : roleIdx t .psilist = some i)
+    (plmn : Bytes) (args : List Val) (pdu : Val) (h : build E t plmn args = .ok pdu)
+    (xs : List Val) (ha : args[i]? = some (.slice xs)) (n : Int) (hmem : Val.int n ∈ xs) (hout : n < 0 ∨ 255 < n) :
+    ∀ bs, encodePdu pdu ≠ .ok bs := by
+  obtain ⟨c, hc, tm, hcls, hcout, _, hp⟩ := build_ok E t plmn args pdu h
+  have hT := List.all_eq_true.mp reach_list_table t ht
+  unfold reachListOK at hT
+  rw [hi] at hT
+  simp only [Bool.and_eq_true, beq_iff_eq] at hT
+  obtain ⟨⟨hdims, hrole⟩, hcases⟩ := hT
+  have hC := List.all_eq_true.mp hcases c hc
+  rw [hcout] at hC
+  have harg := effEnv_arg t plmn args i _ ha
+  have hne : (c.cls == [0]) = false := by
+    have hclass : c.cls = [cls E .psilist ((effEnv t plmn args).arg i)] := by
+      rw [hcls]; simp [classes, hdims, hrole]
+    rw [hclass, harg]
+    have := cls_psilist_slice E xs
+    simp [this]
+  simp only [hne, Bool.false_or] at hC
+  have hbad := tmReachList_sound E (effEnv t plmn args) Gen.Ngap.schema i 0 255 n hout xs harg hmem skDepth Builders.fuel _ _ tm
+    .nil hC
+  subst hp
+  intro bs hbs
+  unfold encodePdu marshal at hbs
+  cases henc : encField Gen.Ngap.schema Builders.fuel 0 (.struct Gen.Ngap.pduId) Gen.Ngap.encoderParams
+      (eval E (effEnv t plmn args) .nil tm) with
+  | error x => rw [henc] at hbs; cases hbs
+  | ok bits => exact badV_refused Gen.Ngap.schema _ _ _ _ hbad 0 bits henc
 
 end Stgutg.Props.C13
